@@ -653,3 +653,15 @@ Proof.
   split; [reflexivity|]. specialize (Hall P HP). eapply Forall_impl; [exact Hall|]. intros q Hq.
   pose proof (R_vis s1 Req Hnomarker t σt σ' q HRt Hq) as Hv. exact Hv.
 Qed.
+
+(** what "visible" means to a caller: exists through the overlay answers true *)
+Lemma visible_exists (hs : list hstate) (lg : list (nat * fscall)) (ft : option (nat * nat)) (s0 s1 : mstate) (q : path) :
+  q <> [] -> visible s0 s1 q ->
+  run bhandler (ovl_exists (v0, []) [(v1, [])] q) (mstore2 s0 s1 hs lg ft) = (mstore2 s0 s1 hs lg ft, Ok true).
+Proof.
+  intros Hq Hv. rewrite (exists_rule hs lg ft s0 s1 q Hq). f_equal. f_equal.
+  destruct Hv as [(d & Hd & _)|[Hm (d & Hd & _)]].
+  - rewrite bool_decide_eq_true_2 by eauto. reflexivity.
+  - rewrite Hm, Hd. rewrite (bool_decide_eq_false_2 (is_Some None)) by (intros [? ?]; discriminate).
+    rewrite (bool_decide_eq_true_2 (is_Some (Some d))) by eauto. cbn. apply orb_true_r.
+Qed.
